@@ -227,55 +227,110 @@ def _outevent_rule(ctx, abs_):
     fn, ctor = next(((f, c) for f, c in sites if f.qualname == 'parse_event'), sites[0])
     stmt = ctx.flow.enclosing_stmt(ctor)
     var = stmt.targets[0].id if isinstance(stmt, ast.Assign) and isinstance(stmt.targets[0], ast.Name) else None
-    rets = [n for n in iter_own_nodes(fn.node) if isinstance(n, ast.Return)]
-    if var is None or len(rets) != 1 or not (isinstance(rets[0].value, ast.Name) and rets[0].value.id == var) \
-            or rets[0] is not fn.node.body[-1]:
+    rets = [n for n in iter_own_nodes(fn.node) if isinstance(n, ast.Return) and n.value is not None]
+    if var is None or not rets or any(not (isinstance(r.value, ast.Name) and r.value.id == var) for r in rets):
         run.error('C15.outevent', fn.module.name, fn.qualname, stmt,
-                  'expected `evt = Event(...)` followed by guards and a final `return evt`', node=stmt)
+                  'expected `evt = Event(...)` and returns of that variable only', node=stmt)
         return
-    found = {'valued': None, 'outparam': None}
+
+    def top_of(n):
+        while prog.parent(n) is not fn.node:
+            n = prog.parent(n)
+        return n
+
+    def enclosing_loops(n):
+        out, p_ = [], prog.parent(n)
+        while p_ is not None and p_ is not fn.node:
+            if isinstance(p_, (ast.For, ast.While, ast.Try, ast.With)):
+                out.append(p_)
+            p_ = prog.parent(p_)
+        return out
+
+    def classify(node):
+        """(is_out, is_not_out, valued_test, outparam_test, extra facts) of the conditions under which node is reached."""
+        is_out = is_not_out = valued = outparam = False
+        extra = []
+        loops = enclosing_loops(node)
+        loop_vars = {l.target.id for l in loops if isinstance(l, ast.For) and isinstance(l.target, ast.Name)
+                     and ast.unparse(l.iter) == f'{var}.signature.formals.elements'}
+        for c, pol in atomic_facts(ctx.flow.path_conditions(node)):
+            t = ast.unparse(c)
+            cmp_eq = isinstance(c, ast.Compare) and isinstance(c.ops[0], (ast.Eq, ast.Is))
+            cmp_ne = isinstance(c, ast.Compare) and isinstance(c.ops[0], (ast.NotEq, ast.IsNot))
+            if f'{var}.direction' in t and 'EventDirection.OUT' in t and (cmp_eq or cmp_ne):
+                if cmp_eq == pol:
+                    is_out = True
+                else:
+                    is_not_out = True
+                continue
+            if f'{var}.direction' in t and 'EventDirection.IN' in t and (cmp_eq or cmp_ne):
+                if cmp_eq == pol:
+                    is_not_out = True
+                else:
+                    is_out = True
+                continue
+            if 'type_name' in t and "'void'" in t and (cmp_eq or cmp_ne):
+                if cmp_ne == pol:
+                    valued = True
+                    continue
+            if 'FormalDirection.OUT' in t and pol and any(
+                    isinstance(x, ast.Compare) and isinstance(x.ops[0], (ast.Eq, ast.Is)) and 'FormalDirection.OUT' in ast.unparse(x)
+                    for x in ast.walk(c)) and ('formals' in t or any(t.startswith(f'{v}.direction') for v in loop_vars)):
+                outparam = True
+                continue
+            # the negation of an earlier rejection (we only get here when that one did not fire) weakens nothing
+            if any(isinstance(g, ast.If) and always_raises(g.body) and any(x is c for x in ast.walk(g.test))
+                   for g in ast.walk(fn.node)) and not any(x is node for g in ast.walk(fn.node) if isinstance(g, ast.If)
+                                                            and any(y is c for y in ast.walk(g.test)) for x in ast.walk(g)):
+                continue
+            if isinstance(c, ast.Constant) and bool(c.value) == pol:
+                continue
+            extra.append((t, pol))
+        return is_out, is_not_out, valued, outparam, extra, loops
+
     ex_name = lambda r: ast.unparse(r.exc.func if isinstance(r.exc, ast.Call) else r.exc) if r.exc else ''
-    for r in [n for n in iter_own_nodes(fn.node) if isinstance(n, ast.Raise)]:
+    rejections = []
+    for r in [n for n in iter_own_nodes(fn.node) if isinstance(n, ast.Raise) and 'DznJsonError' in ex_name(n)]:
         if r.lineno < stmt.lineno:
             continue
-        if 'DznJsonError' not in ex_name(r):
+        rejections.append((r, classify(r)))
+    n_checked = 0
+    for ret in rets:
+        r_out, r_not_out, _v, _o, _extra, r_loops = classify(ret)
+        if r_not_out and not r_out:
+            run.holds('C15.outevent', fn.module.name, fn.qualname, ret, 'return of an event known not to be an out event',
+                      node=ret, nontrivial=False)
             continue
-        conds = ctx.flow.path_conditions(r)
-        texts = []
-        is_out = False
-        for c, pol in atomic_facts(conds):
-            t = ast.unparse(c)
-            texts.append((t, pol, c))
-            if pol and 'EventDirection.OUT' in t and f'{var}.direction' in t and isinstance(c, ast.Compare) and \
-                    isinstance(c.ops[0], (ast.Eq, ast.Is)):
-                is_out = True
-            if not pol and 'EventDirection.IN' in t and f'{var}.direction' in t and isinstance(c, ast.Compare) and \
-                    isinstance(c.ops[0], (ast.Eq, ast.Is)):
-                is_out = True
-        if not is_out:
-            continue
-        for t, pol, c in texts:
-            if 'type_name' in t and "'void'" in t and isinstance(c, ast.Compare):
-                ne = isinstance(c.ops[0], ast.NotEq)
-                if ne == pol:
-                    found['valued'] = r
-            if 'FormalDirection.OUT' in t and 'formals' in t and pol:
-                # a filtered comprehension / any() over the formals that selects direction == OUT
-                if any(isinstance(x, ast.Compare) and isinstance(x.ops[0], (ast.Eq, ast.Is)) and
-                       'FormalDirection.OUT' in ast.unparse(x) for x in ast.walk(c)):
-                    found['outparam'] = r
-    for key, label in (('valued', 'out event with a non-void reply'), ('outparam', 'out event with an out parameter')):
-        r = found[key]
-        if r is None:
-            run.violation('C15.outevent', fn.module.name, fn.qualname, f'rejection: {label}',
-                          f'{label} is not refused: no `raise DznJsonError` under `direction == OUT` with that test '
-                          f'between the Event construction and the return', node=stmt)
-        else:
-            top = r
-            while prog.parent(top) is not fn.node:
-                top = prog.parent(top)
-            ok = isinstance(top, ast.If) and fn.node.body.index(top) < fn.node.body.index(rets[0])
-            run.add('C15.outevent', fn.module.name, fn.qualname, top, ok,
-                    f'{label} is refused with DznJsonError before the event is returned' if ok else
-                    f'the rejection of an {label} does not dominate the return', node=top)
+        for key, label in (('valued', 'out event with a non-void reply'), ('outparam', 'out event with an out parameter')):
+            n_checked += 1
+            good = None
+            near = None
+            for r, (is_out, _n, valued, outparam, extra, loops) in rejections:
+                test = valued if key == 'valued' else outparam
+                if not test:
+                    continue
+                near = near or r
+                in_scope = is_out or r_out          # the direction is established at the raise or already at this return
+                dominates = fn.node.body.index(top_of(r)) < fn.node.body.index(top_of(ret))
+                loops_ok = not loops or (key == 'outparam' and all(
+                    isinstance(l, ast.For) and ast.unparse(l.iter) == f'{var}.signature.formals.elements' for l in loops))
+                if in_scope and dominates and loops_ok and not extra:
+                    good = r
+                    break
+            if good is not None:
+                run.holds('C15.outevent', fn.module.name, fn.qualname, top_of(good),
+                          f'{label} is refused with DznJsonError before the event is returned', node=good)
+            elif near is not None:
+                _io, _n, _v, _o, extra, loops = dict((id(r), c) for r, c in rejections)[id(near)]
+                why = ('the test is only evaluated inside a loop / handler that may not run at all (e.g. no parameters)' if loops else
+                       f'the rejection additionally depends on {extra[0][0]!r}' if extra else
+                       'the rejection does not precede this return')
+                run.violation('C15.outevent', fn.module.name, fn.qualname, top_of(near),
+                              f'the rejection of an {label} does not guard every returned out event: {why}', node=near)
+            else:
+                run.violation('C15.outevent', fn.module.name, fn.qualname, f'rejection: {label}',
+                              f'{label} is not refused: no `raise DznJsonError` with that test between the Event construction '
+                              f'and the return', node=stmt)
+    if n_checked == 0:
+        run.error('C15.outevent', fn.module.name, fn.qualname, 'returns', 'no return of a possibly-out event found')
     run.floor('C15.outevent', 2)
